@@ -39,9 +39,14 @@ From OV Require Import Proofs.RoundSum.
                       |sum u_i v_i| <= sqrt (sum |u_i|^2) * sqrt (sum |v_i|^2).
      at Complex<f64>  (IEEE binary64 through Flocq) "exact on exactly-representable data": on Gaussian integers of integer modulus
                       (a^2 + b^2 = m^2 < 2^53, e.g. 3+4i) nothing rounds: norm_inf returns exactly max m_i, norm_1 exactly (sum m_i, +0).
-   Not proved: the laws "up to rounding" over Complex<f64> on general data (searched on every run, kind vec.cnormlaws, 1e-12 slack).
+     "to rounding accuracy" (standard model of floating-point arithmetic with a rounded square root, as for norm_2 above):
+                      fl(|z|) = |z|(1 + th), |th| <= gam 3;  fl(norm_inf v) = max|z_i| (1 + th), |th| <= gam 3;
+                      re fl(norm_1 v) = Sum |z_k| (1 + th_k), |th_k| <= gam (n+3), im fl(norm_1 v) = 0 -- for every length.
+   Not proved: the standard model itself for Complex<f64> when re^2 + im^2 overflows or underflows (there the laws FAIL on the
+   real code: norm_inf [1e200 + 0i] = inf, norm_inf [1e-200 + 1e-200i] = 0 -- the complex twin of the recorded finding
+   f64-square-range; not in the default search); the search (kind vec.cnormlaws, 1e-12 slack) draws entries of moderate magnitude.
    ====================================================================================================== *)
-From OV Require Proofs.ComplexR Proofs.VectorCx2 Proofs.VectorCx2Q Proofs.VectorCx2F gen.SrcVecCmplx.
+From OV Require Proofs.ComplexR Proofs.VectorCx2 Proofs.VectorCx2Q Proofs.VectorCx2F Proofs.VectorCx2R gen.SrcVecCmplx.
 
 Theorem instances_agree : VectorR.AR = ComplexR.AR /\ VectorR.SAR = ComplexR.SAR.
 Proof. exact VectorCx2.instances_agree_lemma. Qed.
@@ -317,3 +322,110 @@ Print Assumptions audit_separator.
 Example cnorm_exact_float_nonvacuous :
   Forall2 VectorCx2F.GaussExact VectorCx2F.exc_v VectorCx2F.exc_m /\ (VectorFloat.zsuml VectorCx2F.exc_m < 2 ^ 53)%Z.
 Proof. split; [exact VectorCx2F.exc_exact|]. vm_compute. reflexivity. Qed.
+
+(* ---------------------------------------------------------------- complex norms "to rounding accuracy" (standard model) *)
+(* The same Gallina functions at the standard-model arithmetic (RoundModel.ARm: every + and * is the exact result times (1+d),
+   |d| <= u; RoundNorm2.SARm adds the rounded square root), as for norm_2_relative_error above.  Comparisons are exact. *)
+Theorem cabs_relative_error : forall (u : R), (0 <= u < 1)%R ->
+  forall (fadd fsub fmul fdiv : R -> R -> R) (fsqrt : R -> R),
+  (forall x y : R, exists d : R, (Rabs d <= u)%R /\ fadd x y = ((x + y) * (1 + d))%R) ->
+  (forall x y : R, exists d : R, (Rabs d <= u)%R /\ fmul x y = (x * y * (1 + d))%R) ->
+  (forall x : R, (0 <= x)%R -> exists d : R, (Rabs d <= u)%R /\ fsqrt x = (R_sqrt.sqrt x * (1 + d))%R) ->
+  forall (z : cplx (RoundModel.ARm fadd fsub fmul fdiv)), (INR 3 * u < 1)%R ->
+  exists th : R, (Rabs th <= RoundModel.gam u 3)%R /\
+    (@Model.Complex.cabs (RoundNorm2.SARm fadd fsub fmul fdiv fsqrt) z : R) = (R_sqrt.sqrt (re z * re z + im z * im z) * (1 + th))%R.
+Proof. intros u Hu fadd fsub fmul fdiv fsqrt Ha Hm Hs z. exact (VectorCx2R.cabs_relative_error_lemma u Hu fadd fsub fmul fdiv fsqrt Ha Hm Hs z). Qed.
+Check cabs_relative_error : forall (u : R), (0 <= u < 1)%R ->
+  forall (fadd fsub fmul fdiv : R -> R -> R) (fsqrt : R -> R),
+  (forall x y : R, exists d : R, (Rabs d <= u)%R /\ fadd x y = ((x + y) * (1 + d))%R) ->
+  (forall x y : R, exists d : R, (Rabs d <= u)%R /\ fmul x y = (x * y * (1 + d))%R) ->
+  (forall x : R, (0 <= x)%R -> exists d : R, (Rabs d <= u)%R /\ fsqrt x = (R_sqrt.sqrt x * (1 + d))%R) ->
+  forall (z : cplx (RoundModel.ARm fadd fsub fmul fdiv)), (INR 3 * u < 1)%R ->
+  exists th : R, (Rabs th <= RoundModel.gam u 3)%R /\
+    (@Model.Complex.cabs (RoundNorm2.SARm fadd fsub fmul fdiv fsqrt) z : R) = (R_sqrt.sqrt (re z * re z + im z * im z) * (1 + th))%R.
+Print Assumptions cabs_relative_error.
+Print Assumptions audit_separator.
+
+Theorem cnorm_inf_relative_error : forall (u : R), (0 <= u < 1)%R ->
+  forall (fadd fsub fmul fdiv : R -> R -> R) (fsqrt : R -> R),
+  (forall x y : R, exists d : R, (Rabs d <= u)%R /\ fadd x y = ((x + y) * (1 + d))%R) ->
+  (forall x y : R, exists d : R, (Rabs d <= u)%R /\ fmul x y = (x * y * (1 + d))%R) ->
+  (forall x : R, (0 <= x)%R -> exists d : R, (Rabs d <= u)%R /\ fsqrt x = (R_sqrt.sqrt x * (1 + d))%R) ->
+  forall (v : list (cplx (RoundModel.ARm fadd fsub fmul fdiv))) (m : R), (INR 3 * u < 1)%R ->
+  cnorm_inf (F := RoundNorm2.SARm fadd fsub fmul fdiv fsqrt) v = Ok m ->
+  exists (z : cplx (RoundModel.ARm fadd fsub fmul fdiv)) (th : R), In z v /\
+    (forall w, In w v -> (R_sqrt.sqrt (re w * re w + im w * im w) <= R_sqrt.sqrt (re z * re z + im z * im z))%R) /\
+    (Rabs th <= RoundModel.gam u 3)%R /\ m = (R_sqrt.sqrt (re z * re z + im z * im z) * (1 + th))%R.
+Proof. intros u Hu fadd fsub fmul fdiv fsqrt Ha Hm Hs v m. exact (VectorCx2R.cnorm_inf_relative_error_lemma u Hu fadd fsub fmul fdiv fsqrt Ha Hm Hs v m). Qed.
+Check cnorm_inf_relative_error : forall (u : R), (0 <= u < 1)%R ->
+  forall (fadd fsub fmul fdiv : R -> R -> R) (fsqrt : R -> R),
+  (forall x y : R, exists d : R, (Rabs d <= u)%R /\ fadd x y = ((x + y) * (1 + d))%R) ->
+  (forall x y : R, exists d : R, (Rabs d <= u)%R /\ fmul x y = (x * y * (1 + d))%R) ->
+  (forall x : R, (0 <= x)%R -> exists d : R, (Rabs d <= u)%R /\ fsqrt x = (R_sqrt.sqrt x * (1 + d))%R) ->
+  forall (v : list (cplx (RoundModel.ARm fadd fsub fmul fdiv))) (m : R), (INR 3 * u < 1)%R ->
+  cnorm_inf (F := RoundNorm2.SARm fadd fsub fmul fdiv fsqrt) v = Ok m ->
+  exists (z : cplx (RoundModel.ARm fadd fsub fmul fdiv)) (th : R), In z v /\
+    (forall w, In w v -> (R_sqrt.sqrt (re w * re w + im w * im w) <= R_sqrt.sqrt (re z * re z + im z * im z))%R) /\
+    (Rabs th <= RoundModel.gam u 3)%R /\ m = (R_sqrt.sqrt (re z * re z + im z * im z) * (1 + th))%R.
+Print Assumptions cnorm_inf_relative_error.
+Print Assumptions audit_separator.
+
+Theorem cnorm1_backward_error : forall (u : R), (0 <= u < 1)%R ->
+  forall (fadd fsub fmul fdiv : R -> R -> R) (fsqrt : R -> R),
+  (forall x y : R, exists d : R, (Rabs d <= u)%R /\ fadd x y = ((x + y) * (1 + d))%R) ->
+  (forall x y : R, exists d : R, (Rabs d <= u)%R /\ fmul x y = (x * y * (1 + d))%R) ->
+  (forall x : R, (0 <= x)%R -> exists d : R, (Rabs d <= u)%R /\ fsqrt x = (R_sqrt.sqrt x * (1 + d))%R) ->
+  forall (v : list (cplx (RoundModel.ARm fadd fsub fmul fdiv))), (INR (length v + 3) * u < 1)%R ->
+  exists th : nat -> R,
+    (forall k, k < length v -> (Rabs (th k) <= RoundModel.gam u (length v + 3))%R) /\
+    re (norm_1 (A := CArith (RoundNorm2.SARm fadd fsub fmul fdiv fsqrt)) v)
+    = RoundModel.Rsum (length v) (fun k => (R_sqrt.sqrt (re (nth k v (@czero (RoundModel.ARm fadd fsub fmul fdiv))) * re (nth k v (@czero (RoundModel.ARm fadd fsub fmul fdiv))) + im (nth k v (@czero (RoundModel.ARm fadd fsub fmul fdiv))) * im (nth k v (@czero (RoundModel.ARm fadd fsub fmul fdiv)))) * (1 + th k))%R) /\
+    im (norm_1 (A := CArith (RoundNorm2.SARm fadd fsub fmul fdiv fsqrt)) v) = 0%R.
+Proof. intros u Hu fadd fsub fmul fdiv fsqrt Ha Hm Hs v. exact (VectorCx2R.cnorm1_backward_error_lemma u Hu fadd fsub fmul fdiv fsqrt Ha Hm Hs v). Qed.
+Check cnorm1_backward_error : forall (u : R), (0 <= u < 1)%R ->
+  forall (fadd fsub fmul fdiv : R -> R -> R) (fsqrt : R -> R),
+  (forall x y : R, exists d : R, (Rabs d <= u)%R /\ fadd x y = ((x + y) * (1 + d))%R) ->
+  (forall x y : R, exists d : R, (Rabs d <= u)%R /\ fmul x y = (x * y * (1 + d))%R) ->
+  (forall x : R, (0 <= x)%R -> exists d : R, (Rabs d <= u)%R /\ fsqrt x = (R_sqrt.sqrt x * (1 + d))%R) ->
+  forall (v : list (cplx (RoundModel.ARm fadd fsub fmul fdiv))), (INR (length v + 3) * u < 1)%R ->
+  exists th : nat -> R,
+    (forall k, k < length v -> (Rabs (th k) <= RoundModel.gam u (length v + 3))%R) /\
+    re (norm_1 (A := CArith (RoundNorm2.SARm fadd fsub fmul fdiv fsqrt)) v)
+    = RoundModel.Rsum (length v) (fun k => (R_sqrt.sqrt (re (nth k v (@czero (RoundModel.ARm fadd fsub fmul fdiv))) * re (nth k v (@czero (RoundModel.ARm fadd fsub fmul fdiv))) + im (nth k v (@czero (RoundModel.ARm fadd fsub fmul fdiv))) * im (nth k v (@czero (RoundModel.ARm fadd fsub fmul fdiv)))) * (1 + th k))%R) /\
+    im (norm_1 (A := CArith (RoundNorm2.SARm fadd fsub fmul fdiv fsqrt)) v) = 0%R.
+Print Assumptions cnorm1_backward_error.
+Print Assumptions audit_separator.
+
+Theorem cnorm1_relative_error : forall (u : R), (0 <= u < 1)%R ->
+  forall (fadd fsub fmul fdiv : R -> R -> R) (fsqrt : R -> R),
+  (forall x y : R, exists d : R, (Rabs d <= u)%R /\ fadd x y = ((x + y) * (1 + d))%R) ->
+  (forall x y : R, exists d : R, (Rabs d <= u)%R /\ fmul x y = (x * y * (1 + d))%R) ->
+  (forall x : R, (0 <= x)%R -> exists d : R, (Rabs d <= u)%R /\ fsqrt x = (R_sqrt.sqrt x * (1 + d))%R) ->
+  forall (v : list (cplx (RoundModel.ARm fadd fsub fmul fdiv))), (INR (length v + 3) * u < 1)%R ->
+  (Rabs (re (norm_1 (A := CArith (RoundNorm2.SARm fadd fsub fmul fdiv fsqrt)) v)
+         - RoundModel.Rsum (length v) (fun k => R_sqrt.sqrt (re (nth k v (@czero (RoundModel.ARm fadd fsub fmul fdiv))) * re (nth k v (@czero (RoundModel.ARm fadd fsub fmul fdiv))) + im (nth k v (@czero (RoundModel.ARm fadd fsub fmul fdiv))) * im (nth k v (@czero (RoundModel.ARm fadd fsub fmul fdiv))))))
+   <= RoundModel.gam u (length v + 3) * RoundModel.Rsum (length v) (fun k => R_sqrt.sqrt (re (nth k v (@czero (RoundModel.ARm fadd fsub fmul fdiv))) * re (nth k v (@czero (RoundModel.ARm fadd fsub fmul fdiv))) + im (nth k v (@czero (RoundModel.ARm fadd fsub fmul fdiv))) * im (nth k v (@czero (RoundModel.ARm fadd fsub fmul fdiv))))))%R.
+Proof. intros u Hu fadd fsub fmul fdiv fsqrt Ha Hm Hs v. exact (VectorCx2R.cnorm1_relative_error_lemma u Hu fadd fsub fmul fdiv fsqrt Ha Hm Hs v). Qed.
+Check cnorm1_relative_error : forall (u : R), (0 <= u < 1)%R ->
+  forall (fadd fsub fmul fdiv : R -> R -> R) (fsqrt : R -> R),
+  (forall x y : R, exists d : R, (Rabs d <= u)%R /\ fadd x y = ((x + y) * (1 + d))%R) ->
+  (forall x y : R, exists d : R, (Rabs d <= u)%R /\ fmul x y = (x * y * (1 + d))%R) ->
+  (forall x : R, (0 <= x)%R -> exists d : R, (Rabs d <= u)%R /\ fsqrt x = (R_sqrt.sqrt x * (1 + d))%R) ->
+  forall (v : list (cplx (RoundModel.ARm fadd fsub fmul fdiv))), (INR (length v + 3) * u < 1)%R ->
+  (Rabs (re (norm_1 (A := CArith (RoundNorm2.SARm fadd fsub fmul fdiv fsqrt)) v)
+         - RoundModel.Rsum (length v) (fun k => R_sqrt.sqrt (re (nth k v (@czero (RoundModel.ARm fadd fsub fmul fdiv))) * re (nth k v (@czero (RoundModel.ARm fadd fsub fmul fdiv))) + im (nth k v (@czero (RoundModel.ARm fadd fsub fmul fdiv))) * im (nth k v (@czero (RoundModel.ARm fadd fsub fmul fdiv))))))
+   <= RoundModel.gam u (length v + 3) * RoundModel.Rsum (length v) (fun k => R_sqrt.sqrt (re (nth k v (@czero (RoundModel.ARm fadd fsub fmul fdiv))) * re (nth k v (@czero (RoundModel.ARm fadd fsub fmul fdiv))) + im (nth k v (@czero (RoundModel.ARm fadd fsub fmul fdiv))) * im (nth k v (@czero (RoundModel.ARm fadd fsub fmul fdiv))))))%R.
+Print Assumptions cnorm1_relative_error.
+Print Assumptions audit_separator.
+
+(* the hypotheses are met by 53-bit round-to-nearest-even after every operation, the square root included *)
+Example cnorm_relative_error_nonvacuous :
+  (0 <= ux < 1)%R /\
+  (forall x y : R, exists d : R, (Rabs d <= ux)%R /\ xadd x y = ((x + y) * (1 + d))%R) /\
+  (forall x y : R, exists d : R, (Rabs d <= ux)%R /\ xmul x y = (x * y * (1 + d))%R) /\
+  (forall x : R, (0 <= x)%R -> exists d : R, (Rabs d <= ux)%R /\ rndx (R_sqrt.sqrt x) = (R_sqrt.sqrt x * (1 + d))%R) /\
+  (INR (2 + 3) * ux < 1)%R.
+Proof.
+  split; [exact ux_range|]. split; [exact xadd_ok|]. split; [exact xmul_ok|].
+  split; [intros x _; apply rndx_rel|cbn [Nat.add INR]; pose proof ux_small; lra].
+Qed.
